@@ -287,6 +287,26 @@ func runC05(s *kernel.Sim) {
 		}.YAML()
 		mutations = append(mutations, "data-sanitation-flow")
 	}
+	if tp.Chance(1, 8) {
+		// two more flows: one hands its request over to a shared flow that lives on
+		// another URL (a library flow); the shared flow's end leads back to the flow that
+		// referred to it, so this pair goes round in a circle - it has to be refused
+		// (one of four variants hands over after the shared flow instead, the ordinary
+		// chaining of flows, which is acyclic)
+		ha := flowDef{Name: "ha", URL: flowURL,
+			Procs: []procDef{{Key: "pa", Type: "DataSanitation"}},
+			Req:   []connDef{{FromStream: "start", ToProc: "pa"}, {FromProc: "pa", ToFlow: "hb", ToFlowAt: "start"}},
+			Resp:  []connDef{{FromStream: "start", ToStream: "end"}}}
+		if tp.Chance(1, 4) {
+			ha.Req = []connDef{{FromFlow: "hb", FromFlowAt: "end", ToProc: "pa"}, {FromProc: "pa", ToStream: "end"}}
+		}
+		files["flows/ha.yaml"] = ha.YAML()
+		files["flows/hb.yaml"] = flowDef{Name: "hb", URL: "a.com/shared",
+			Procs: []procDef{{Key: "pb", Type: "DataSanitation"}},
+			Req:   []connDef{{FromStream: "start", ToProc: "pb"}, {FromProc: "pb", ToStream: "end"}},
+			Resp:  []connDef{{FromStream: "start", ToStream: "end"}}}.YAML()
+		mutations = append(mutations, "handover-to-a-shared-flow:"+fmt.Sprint(ha.Req))
+	}
 	quotaW := []int{5, 2, 1, 1, 1, 2, 2, 2}
 	if plausible {
 		quotaW = []int{3, 1, 0, 0, 0, 1, 1, 1}
